@@ -104,6 +104,34 @@ def execute(case):
     w = build(case).wrap_K()
     o, ex = _proj(w)
     ev.append({"ev": "Wrap", "out": o, "exact": ex, "units": _units(w), "meta": _meta(w)})
+    # wrap_K on a table that has ALREADY been looked at (orbit / curve read first, then wrapped in place, then read again): the
+    # object must not answer from anything it remembered about the rows as they were
+    e = {"ev": "WrapUsed", "out": [], "exact": True, "units": [], "meta": {"tref": 0, "poly": 0, "noff": 0}, "same": True, "rescaled": True, "skipped": False, "raised": False}
+    try:
+        s3 = build(case)
+        tt = Time(T0 + np.array([0.0, 1.3, 2.9, 7.7, 11.1]), format="mjd", scale="tcb")
+
+        def curves(tab):
+            return np.array([tab.get_orbit(k).radial_velocity(tt).to_value(u.km / u.s) for k in range(len(tab))])
+        try:
+            c0 = curves(s3)
+        except Exception:
+            c0 = None              # a table get_orbit does not serve (no reference epoch): nothing was remembered, nothing to compare
+            e["skipped"] = True
+        if c0 is not None:
+            s3.wrap_K()
+            c1 = curves(s3)
+            e["same"] = bool(np.allclose(c0, c1, rtol=0, atol=1e-9))
+            e["out"], e["exact"] = _proj(s3)
+            e["units"], e["meta"] = _units(s3), _meta(s3)
+            s3["K"] = 3 * s3["K"]                      # a column replaced after the orbit was read: the next orbit is the new rows'
+            s3["v0"] = s3["v0"] + 1 * u.km / u.s
+            c2 = curves(s3)
+            e["rescaled"] = bool(np.allclose(3 * c1 + 1, c2, rtol=0, atol=1e-8))
+    except Exception as ex_:
+        e["raised"] = True
+        e["exc"] = repr(ex_)[:160]
+    ev.append(e)
     # time with phase
     for q in case["phases"]:
         e = {"ev": "Phase", "q": q, "ts": [], "exact": True, "raised": False}
